@@ -30,7 +30,7 @@ def bfs_cfg(name, vecs=3, dims=(2, 3), exts=(1,), nblk=6, cap=2, maxops=3, ops=(
             invs=("TypeOK", "UniqueOwner", "MovedFromSafe", "ExternalExact", "HeapSound", "NoLeak", "ValuesOK"),
             props=("WriteFrame", "ExternalStable", "FailureFrame", "CopyIndependent"), next_op=None):
     os.makedirs(vlib.BUILD, exist_ok=True)
-    p = os.path.join(vlib.BUILD, name + ".cfg")
+    p = os.path.join(vlib.cfgdir(), name + ".cfg")
     with open(p, "w") as f:
         f.write("SPECIFICATION %s\nCONSTANTS\n" % ("Spec" if not next_op else next_op))
         f.write("  Vecs = {%s}\n" % ",".join("v%d" % (i + 1) for i in range(vecs)))
@@ -392,7 +392,7 @@ def trace_cfg(name, faults=True, nblk=40, cap=32):
     if nblk > 12:
         nblk = 256            # random histories: up to 32 cached blocks per class plus a Burst of 70 temporaries
         cap = 256             # no assumption about the capacity of a cache class (not part of any property): caching is allowed whenever it happens
-    p = os.path.join(vlib.BUILD, name + ".cfg")
+    p = os.path.join(vlib.cfgdir(), name + ".cfg")
     with open(p, "w") as f:
         f.write("""SPECIFICATION TSpec
 CONSTANTS
